@@ -31,8 +31,28 @@ def getEntry (j : Json) : Except String Entry := do
   | [f, c, d] => return { fileSize := ← f.getNat?, compressSize := ← c.getNat?, isDir := ← d.getBool? }
   | _ => throw "entry must be [file_size, compress_size, is_dir]"
 
-/-- "infos": null (infolist() raises) | [[fs, cs, dir], …] -/
+def natList (j : Json) : Except String (List Nat) := do
+  (← j.getArr?).toList.mapM (fun x => x.getNat?)
+
+/-- a full central-directory record
+    [fs, cs, name, external_attr, internal_attr, create_system, create_version, extract_version, flag_bits,
+     compress_type, crc, dos_date, dos_time, volume, [extra bytes], [comment bytes]] -/
+def getRecord (j : Json) : Except String CdRecord := do
+  let a ← j.getArr?
+  match a.toList with
+  | [f, c, n, ea, ia, sy, cv, xv, fl, ct, crc, dd, dt, vol, ex, cm] =>
+    return { filename := (← n.getStr?).toList, fileSize := ← f.getNat?, compressSize := ← c.getNat?,
+             externalAttr := ← ea.getNat?, internalAttr := ← ia.getNat?, createSystem := ← sy.getNat?,
+             createVersion := ← cv.getNat?, extractVersion := ← xv.getNat?, flagBits := ← fl.getNat?,
+             compressType := ← ct.getNat?, crc := ← crc.getNat?, dosDate := ← dd.getNat?, dosTime := ← dt.getNat?,
+             volume := ← vol.getNat?, extra := ← natList ex, comment := ← natList cm }
+  | _ => throw "record must have 16 components"
+
+/-- "recs": [[full record], …] (the model derives `is_dir` from the NAME: `Entry.ofRecord`), else
+    "infos": null (infolist() raises) | [[fs, cs, dir], …] -/
 def getInfos (j : Json) : Except String (Option (List Entry)) := do
+  if let .ok (.arr a) := j.getObjVal? "recs" then
+    return some ((← a.toList.mapM getRecord).map Entry.ofRecord)
   match j.getObjVal? "infos" with
   | .ok .null => return none
   | .ok (.arr a) => return some (← a.toList.mapM getEntry)
